@@ -63,6 +63,16 @@
 #undef ScopedThread
 #define VSCHED_SUBSTITUTE_END
 #include "common/vsched.h"
+// the same header a third time with the REAL std primitives, as class ThreadedIterReal: used only for the life-cycle
+// cases (Init again after Destroy on one object), whose outcome does not depend on the schedule
+#undef DMLC_THREADEDITER_H_
+#define ThreadedIter ThreadedIterReal
+#define ScopedThread ScopedThreadReal
+#include <dmlc/threadediter.h>
+#undef ThreadedIter
+#undef ScopedThread
+#include <sys/wait.h>
+#include <unistd.h>
 
 namespace {
 
@@ -727,6 +737,109 @@ void oracle(Exec *X, const vs::Result &r, std::vector<std::string> *fails) {
 }
 
 // ------------------------------------------------------------------------------------------------
+// life cycle: Init -> use -> Destroy -> Init again on ONE object (what unittest_threaditer_exc_handling does after a
+// producer failure; lean: TIter/Lifecycle.lean `reinit_eq_init`).  Real threads; the outcome is schedule independent:
+// the second life must deliver exactly its own items, in order, then the end, on the first pass and after a rewind.
+//   case <n> fine life2 cap=<c> n1=<items of life 1> k=<items consumed> end=<n|e|x> n2=<items of life 2>
+//   end: n = Destroy right after the k items, e = drain life 1 to its end first, x = the producer of life 1 throws after
+//   its n1 items and the consumer runs into the error first
+// ------------------------------------------------------------------------------------------------
+struct LCell { int v = -1; };
+static std::string life2_body(int cap, int n1, int k, char end1, int n2) {
+  dmlc::ThreadedIterReal<LCell> it(static_cast<size_t>(cap));
+  int c1 = 0, c2 = 0;
+  auto mk = [](int n, int base, int *cnt, bool thr) {
+    return [=](LCell **d) {
+      if (*cnt >= n) { if (thr) throw dmlc::Error("life 1 fails"); return false; }
+      if (*d == nullptr) *d = new LCell;
+      (*d)->v = base + *cnt;
+      ++*cnt;
+      return true;
+    };
+  };
+  it.Init(mk(n1, 0, &c1, end1 == 'x'), [&c1]() { c1 = 0; });
+  try {
+    for (int i = 0; i < k; ++i) {
+      LCell *p = nullptr;
+      if (!it.Next(&p)) return "life 1: Next returned false at item " + std::to_string(i);
+      if (p->v != i) return "life 1: item " + std::to_string(i) + " has value " + std::to_string(p->v);
+      it.Recycle(&p);
+    }
+    if (end1 != 'n') {
+      LCell *p = nullptr;
+      while (it.Next(&p)) it.Recycle(&p);
+      if (end1 == 'x') return "life 1: the producer's failure was reported as the end of the stream";
+    }
+  } catch (const dmlc::Error &) {
+    if (end1 != 'x') return "life 1: dmlc::Error without a failing producer";
+  }
+  it.Destroy();
+  it.Init(mk(n2, 100, &c2, false), [&c2]() { c2 = 0; });
+  for (int pass = 0; pass < 2; ++pass) {
+    try {
+      if (pass == 1) it.BeforeFirst();
+      for (int i = 0; i < n2; ++i) {
+        LCell *p = nullptr;
+        if (!it.Next(&p))
+          return "life 2 (Init after Destroy), pass " + std::to_string(pass) + ": Next returned false at item " + std::to_string(i) +
+                 " of " + std::to_string(n2) + " although the producer never reported the end";
+        if (p->v != 100 + i)
+          return "life 2, pass " + std::to_string(pass) + ": item " + std::to_string(i) + " has value " + std::to_string(p->v) +
+                 " (expected " + std::to_string(100 + i) + ")";
+        it.Recycle(&p);
+      }
+      LCell *p = nullptr;
+      if (it.Next(&p)) return "life 2, pass " + std::to_string(pass) + ": an item after the producer's end: " + std::to_string(p->v);
+    } catch (const dmlc::Error &e) {
+      return std::string("life 2, pass ") + std::to_string(pass) + ": dmlc::Error (the failure of life 1 must not survive Init): " +
+             std::string(e.what()).substr(0, 80);
+    }
+  }
+  it.Destroy();
+  return "";
+}
+// in a child process with a time limit: a hang is a result, not the end of the run
+static std::string life2_run(int cap, int n1, int k, char end1, int n2) {
+  int fd[2];
+  if (pipe(fd) != 0) return "";
+  fflush(nullptr);
+  pid_t pid = fork();
+  if (pid == 0) {
+    close(fd[0]);
+    alarm(20);
+    std::string r = life2_body(cap, n1, k, end1, n2);
+    if (!r.empty()) { ssize_t w = write(fd[1], r.data(), r.size()); (void)w; }
+    _exit(0);
+  }
+  close(fd[1]);
+  std::string r;
+  char buf[512];
+  ssize_t n;
+  while ((n = read(fd[0], buf, sizeof buf)) > 0) r.append(buf, static_cast<size_t>(n));
+  close(fd[0]);
+  int st = 0;
+  waitpid(pid, &st, 0);
+  if (WIFSIGNALED(st)) return WTERMSIG(st) == SIGALRM ? "life cycle case did not finish within 20 s (a call never returns)"
+                                                      : "life cycle case died with signal " + std::to_string(WTERMSIG(st));
+  if (WIFEXITED(st) && WEXITSTATUS(st) != 0) return "life cycle case exited with status " + std::to_string(WEXITSTATUS(st));
+  return r;
+}
+static bool life2_parse(const std::vector<std::string> &w, int *cap, int *n1, int *k, char *e, int *n2) {
+  if (w.size() < 7 || w[0] != "fine" || w[1] != "life2") return false;
+  for (size_t i = 2; i < w.size(); ++i) {
+    size_t q = w[i].find('=');
+    if (q == std::string::npos) continue;
+    std::string key = w[i].substr(0, q), v = w[i].substr(q + 1);
+    if (key == "cap") *cap = atoi(v.c_str());
+    else if (key == "n1") *n1 = atoi(v.c_str());
+    else if (key == "k") *k = atoi(v.c_str());
+    else if (key == "end" && !v.empty()) *e = v[0];
+    else if (key == "n2") *n2 = atoi(v.c_str());
+  }
+  return *cap >= 1 && *k <= *n1;
+}
+
+// ------------------------------------------------------------------------------------------------
 // harness object (replay path) and generators
 // ------------------------------------------------------------------------------------------------
 struct TIterHarness : vh::Harness {
@@ -736,6 +849,16 @@ struct TIterHarness : vh::Harness {
   void begin_case(const vh::Case &c) override {
     results.clear(); fails.clear(); pos = 0; shape_ = "replay";
     std::vector<std::string> w = vh::split_ws(c.kind);
+    {
+      int cap = 1, n1 = 0, k = 0, n2 = 0;
+      char e = 'n';
+      if (life2_parse(w, &cap, &n1, &k, &e, &n2)) {
+        std::string r = life2_run(cap, n1, k, e, n2);
+        if (!r.empty()) fails.push_back("class=none prop=C07 " + r);
+        shape_ = "life2";
+        return;
+      }
+    }
     Spec sp;
     std::string sched;
     if (!Spec::parse(w, &sp, &sched)) { fails.push_back("class=none prop=C07 harness: cannot parse the case header"); return; }
@@ -907,6 +1030,28 @@ int main(int argc, char **argv) {
   vh::Rng rng(R.seed * 1000003ULL + (prop == "C07" ? 7 : prop == "C08" ? 8 : 9));
   Gen G(R);
   G.prop = prop;
+  // life-cycle cases first (no other thread exists yet: they run in forked children)
+  if (prop == "C07") {
+    for (int cap = 1; cap <= (R.thorough() ? 3 : 2); ++cap)
+      for (int n1 = 0; n1 <= 3; ++n1)
+        for (int k = 0; k <= n1; ++k)
+          for (char e : {'n', 'e', 'x'})
+            for (int n2 : {0, 1, 3}) {
+              if (!R.thorough() && (n1 == 2 || (cap == 2 && n2 == 1))) continue;
+              char kind[160];
+              snprintf(kind, sizeof kind, "fine life2 cap=%d n1=%d k=%d end=%c n2=%d", cap, n1, k, e, n2);
+              std::string r = life2_run(cap, n1, k, e, n2);
+              ++R.n_cases;
+              fprintf(R.f_ops, "case %llu %s\n", (unsigned long long)R.n_cases, kind);
+              fprintf(R.f_impl, "case %llu %s\n", (unsigned long long)R.n_cases, kind);
+              if (!r.empty()) {
+                ++R.n_fail;
+                fprintf(R.f_or, "ORACLE-FAIL case=%llu class=none prop=C07 %s\n", (unsigned long long)R.n_cases, r.c_str());
+              }
+              ++R.hist["life2"];
+              R.distinct.insert(vh::Runner::fnv(kind));
+            }
+  }
   std::vector<Spec> ps = programs(prop, R.thorough(), &rng);
   // every program: a few PCT schedules (macro, with correspondence) incl. spurious wake-ups;
   // a seeded selection of programs: exhaustive DFS with <=2 (quick) / <=3 (thorough) preemptions;
